@@ -56,6 +56,19 @@ fn input_kinds() -> Vec<InputKind> {
         f.push(("filelink.xsd".into(), b(format!("@@symlink:{}", s1.start))));
         v.push(InputKind { label: "success-xsd-next-to-symlink-siblings", files: f, start: s1.start.clone(), start_exists: true, should_succeed: true });
     }
+    // an imported sibling that is a symbolic link to a regular file in another directory
+    {
+        let mut f: Vec<(String, Vec<u8>)> = vec![];
+        for (n, bytes) in to_files(&s0) {
+            if n == s0.start {
+                f.push((n, bytes));
+            } else {
+                f.push((format!("../shared-{n}"), bytes));
+                f.push((n.clone(), b(format!("@@symlink:../shared-{n}"))));
+            }
+        }
+        v.push(InputKind { label: "success-xsd-imports-a-symlinked-sibling", files: f, start: s0.start.clone(), start_exists: true, should_succeed: true });
+    }
     v.push(InputKind { label: "missing-input", files: vec![("other.xsd".into(), to_files(&s1)[0].1.clone())], start: "a.xsd".into(), start_exists: false, should_succeed: false });
     {
         let mut f = to_files(&s1);
@@ -196,7 +209,8 @@ pub fn check(tier: &str) -> i32 {
     let mut lib_out: Vec<Option<Vec<u8>>> = vec![];
     for k in &kinds {
         if k.should_succeed {
-            let case = Case { files: k.files.iter().filter(|(_, bts)| !bts.starts_with(b"@@symlink:")).map(|(n, bts)| (n.clone(), String::from_utf8_lossy(bts).to_string())).collect(), start: k.start.clone() };
+            // (a file stored as ../shared-<name> is what the link <name> points to: the library sees it under <name>)
+            let case = Case { files: k.files.iter().filter(|(_, bts)| !bts.starts_with(b"@@symlink:")).map(|(n, bts)| (n.trim_start_matches("../shared-").to_string(), String::from_utf8_lossy(bts).to_string())).collect(), start: k.start.clone() };
             match run_inproc(&case) {
                 Outcome::Ok(s) => lib_out.push(Some(s.into_bytes())),
                 o => {
@@ -279,7 +293,7 @@ pub fn check(tier: &str) -> i32 {
     }
     rep.set("evaluations", json!(rows.len()));
     rep.set("distinct_nontrivial", json!(distinct.len()));
-    rep.set("rule", json!("complete product: 15 input outcomes (8 succeed, one next to sibling *.xsd entries that are a dangling symlink, a symlink to a directory and a symlink to the start file, one of them with an import cycle through the start file, three with file-name forms: no extension, two dots, leading dot; the input directory's name contains a dot; 7 fail at successive stages: missing input, non-UTF-8 sibling, malformed XML, unresolved import, unresolved reference, a part that refers to a global attribute, unsupported binding) x 5 path spellings x {--output, default .rs path} x pre-existing output {absent, shorter, longer with sentinel tail, the expected output followed by a sentinel tail, the first two thirds of the expected output}; every row is one process run of the real zeep binary in a scratch directory; all rows are distinct and non-trivial"));
+    rep.set("rule", json!("complete product: 16 input outcomes (9 succeed, one importing a sibling that is a symlink to a file in another directory, one next to sibling *.xsd entries that are a dangling symlink, a symlink to a directory and a symlink to the start file, one of them with an import cycle through the start file, three with file-name forms: no extension, two dots, leading dot; the input directory's name contains a dot; 7 fail at successive stages: missing input, non-UTF-8 sibling, malformed XML, unresolved import, unresolved reference, a part that refers to a global attribute, unsupported binding) x 5 path spellings x {--output, default .rs path} x pre-existing output {absent, shorter, longer with sentinel tail, the expected output followed by a sentinel tail, the first two thirds of the expected output}; every row is one process run of the real zeep binary in a scratch directory; all rows are distinct and non-trivial"));
     rep.set("exhaustive", json!(true));
     rep.assume("the zeep binary is rebuilt from /repo/zeep by the check script before the run");
     rep.assume("success rows are compared with the library output computed in-process from the same file contents");
